@@ -1,5 +1,6 @@
 """C01 - core evaluation: one structural-induction step of the evaluator (mechanism level).   (DESIGN.md section 4, C01)"""
-from .c01_parts import spec_apply_scheme, spec_eval_expression, spec_native_apply
+from . import skel
+from .c01_parts import spec_apply_scheme, spec_eval_expression, spec_native_apply, spec_definition
 
 
 def run(chk):
@@ -11,6 +12,12 @@ def run(chk):
     ]
     from .c01_parts import eval_probe, EVAL_PROBES
     chk.run_probes("evaluator", eval_probe, chk.ws.runner("dev"), len(EVAL_PROBES))
+    chk.run_probes("procedure shapes", skel.shape_probe_selfcheck, chk.ws.runner("dev"), 6 * len(skel.SHAPES))
     chk.step("eval_expression", spec_eval_expression, chk)
     chk.step("apply_scheme_procedure", spec_apply_scheme, chk, "", ("fresh", "bind", "order"))
     chk.step("native apply", spec_native_apply, chk)
+    # the value of a call made in tail position is the value of THAT procedure applied to THOSE arguments: the trampoline must
+    # re-bind exactly the procedure and arguments of the returned tail call (same unit as in C02)
+    from .c02 import spec_trampoline
+    chk.step("trampoline re-binding", spec_trampoline, chk, 3, eval_probe)
+    chk.step("definitions", spec_definition, chk)
